@@ -29,8 +29,9 @@ _SB = os.environ.get("VERIF_SANDBOX")
 REPO = os.path.join(_SB, "repo") if _SB else "/repo"
 SPECS = os.path.join(ROOT, "specs")
 HARNESS = os.path.join(_SB, "harness") if _SB else os.path.join(ROOT, "harness")
-EVID = os.path.join(ROOT, "evidence")
-REPLAYS = os.path.join(ROOT, "replays")
+# mutation trials in a sandbox must not overwrite the evidence / replay files of the real tree
+EVID = os.path.join(ROOT, ".sandbox-out", "evidence") if _SB else os.path.join(ROOT, "evidence")
+REPLAYS = os.path.join(ROOT, ".sandbox-out", "replays") if _SB else os.path.join(ROOT, "replays")
 CACHE = os.path.join(ROOT, ".cache")
 TLA_CP = "/opt/veriftools/tla/tla2tools.jar:/opt/veriftools/tla/CommunityModules-deps.jar"
 
